@@ -129,7 +129,7 @@ def target_alphabet(n, seed=0, quarter=True):
     rnd = random.Random(7919 * seed + n)
     out.append(round(rnd.uniform(0.02, 0.98), 6))
     # quarter points plus points a hair off the k/n grid (tolerance-based snapping must not swallow them)
-    fr = (0.0, 1e-4, 0.25, 0.5, 0.75, 1 - 1e-4) if quarter else (0.0, 0.5)
+    fr = (0.0, 1e-6, 0.25, 0.5, 0.75, 1 - 1e-6) if quarter else (0.0, 0.5)
     for k in range(n + 1):
         for f in fr:
             r = (k + f) / n if n else 0.0
